@@ -15,6 +15,17 @@ def swarm(run_seed, base):
     """Per-run variation of knobs (swarm style)."""
     r = substream(run_seed, "swarm")
     c = dict(base)
+    # stratified sessions: about half of the runs are assigned one (motif, primitive) pair so that every
+    # pair is exercised by several sessions per run instead of being left to the uniform draw
+    rs_ = substream(run_seed, "stratum")
+    if rs_.random() < base.get("stratum_rate", 0.5):
+        from sim.gen_prog import G
+
+        st = [x for x in G.strata(with_cfg=bool(base.get("configs"))) if not base.get("ops") or x[1] in base["ops"]]
+        if base.get("strata_ops"):
+            st = [x for x in st if x[1] in base["strata_ops"]]
+        if st:
+            c["stratum"] = list(rs_.choice(st))
     c["configs"] = base.get("configs", r.random() < 0.35)
     c["par"] = base.get("par", r.random() < 0.2)
     c["max_ops"] = r.choice([5, 8, 12])
@@ -71,7 +82,7 @@ def cfg_C04(rs):
 
 def cfg_C10(rs):
     return swarm(rs, {"checks": {"sem": True}, "props": ["C10"], "configs": True, "weights": CONFIG_W, "fault_rates": [0.0, 0.2],
-                      "fault_kinds": ["F1", "F2", "F3c"], "call_eqv_macro": 0.35})
+                      "fault_kinds": ["F1", "F2", "F3c"], "call_eqv_macro": 0.35, "strata_ops": sorted(CONFIG_W)})
 
 
 def cfg_C05(rs):
